@@ -112,7 +112,10 @@ STDOUTS = [
 
 STDERRS = [b"Oct 03 10:00:00.000 [warn] Something went wrong\n",
            b"[err] Reading config failed--see warnings above.\n",
-           b"x"]
+           b"x",
+           # tor prints file names as the bytes they are: a latin-1 path is not valid UTF-8
+           b"[warn] Couldn't open \"/home/jos\xe9/.torrc\" for reading\n",
+           b"\xff\xfe\x00garbage\n"]
 
 PHASES = [(0, "starting", "Starting"), (5, "conn", "Connecting to a relay"),
           (10, "conn_done", "Connected to a relay"), (14, "handshake", "Handshaking with a relay"),
